@@ -72,6 +72,12 @@ func (w *FindRules) Do(ctx *Context, loc *Location) {
 		embed, given := w.Event["evaluate!"]
 		if given {
 			embedded = true
+			// (Looking for stored rules finds out that the location
+			// is disabled; with an embedded rule nobody looks.)
+			if !loc.Enabled(ctx) {
+				w.Disposition = &Condition{"Location is disabled.", "unknown"}
+				return
+			}
 			m, ok := embed.(map[string]interface{})
 			if !ok {
 				err := fmt.Errorf("%#v isn't a rule", embed)
